@@ -231,6 +231,8 @@ def decide(prop, tier, only_unit=None, verbose=False):
                                  f"that unit are no longer established")
             continue
         try:
+            if os.environ.get('VERIF_NO_REPLAY'):
+                raise RuntimeError('replay skipped (VERIF_NO_REPLAY set)')
             if u['tool'] == 'kani':
                 with Lock('kani'):
                     path, concrete = kani_run.replay(u['crate'], lead['harness'], prop, f"{lead['unit']}.{lead['harness']}")
